@@ -204,6 +204,16 @@ def k_menu():
 
 def core_identities(task):
     """All identities on the product alphabet for one dtype/shape."""
+    try:
+        return _core_identities(task)
+    except Exception:      # noqa: BLE001 - an exception inside aurel
+        import traceback
+        return {'task': [str(np.dtype(task[0])), task[1]],
+                'bad': [('raised', traceback.format_exc()[-400:])],
+                'checks': 1, 'points': 1}
+
+
+def _core_identities(task):
     from aurel.core import AurelCore
     from aurel.finitedifference import FiniteDifference
     dtype, shape_kind = task
@@ -407,6 +417,15 @@ def core_identities(task):
 
 
 def curvature_symmetry_case(task):
+    try:
+        return _curvature_symmetry_case(task)
+    except Exception:      # noqa: BLE001
+        import traceback
+        return {'task': list(task),
+                'bad': [('raised', 'exception', traceback.format_exc()[-300:])]}
+
+
+def _curvature_symmetry_case(task):
     """Algebraic symmetries of st_Riemann_down4 and of both constructions of
     st_Weyl_down4 on spatially UNIFORM data: every finite difference is
     exactly zero, so the outputs are pure pointwise algebra."""
@@ -554,7 +573,7 @@ def check_sd(run, fn, a, b, tag):
 
 def main(tier):
     run = runner.Run(PID, tier, "exploration")
-    n1 = maths_product(run)
+    n1 = runner.guard(run, 'C08:maths:raised', maths_product, run)
     tasks = [(np.float64, 'line'), (np.float64, 'box'), (np.float32, 'line')]
     res = runner.pmap(core_identities, tasks, workers=3)
     n2 = 0
@@ -573,7 +592,8 @@ def main(tier):
             run.violation(f"C08:symmetry:{b[0]}:{b[1]}",
                           f"uniform data point {t}: {b}", {'sym': list(t)})
     n2 += len(ctasks) * 8
-    n3 = safe_division_cases(run)
+    n3 = runner.guard(run, 'C08:safe_division:block-raised',
+                      safe_division_cases, run)
     run.sample({'alphabet point': {'alpha': 0.5, 'beta': [-1, 0, 0.7],
                                    'gamma': 'SPD menu #7 (cond ~1e5)',
                                    'K': 'menu #3'},
